@@ -30,6 +30,10 @@ CheckCase(c) ==
          /\ Verdict(id, "jackknife-variance=naive-error^2",
                     RClose(JackVar(c.jack), NaiveVar(c.obs), "1/1000000", RMul("1/100000000000000000000", RSq(Sc(c.obs)))))
     [] c.ev = "jack_import" -> Restored(id, c.res, c.obs, T12, TRUE)
+    \* a configuration list whose length is not the number of samples cannot belong to them: whatever came back, it is not a well-formed
+    \* observable (property C04), so the request has to be refused
+    [] c.ev = "jack_import_bad" -> Verdict(id, "a configuration list of " \o ToString(c.nidl) \o " entries for " \o ToString(c.nsamples) \o " samples must be rejected",
+                                           c.nidl = c.nsamples \/ c.res.k = "exc")
     [] c.ev = "frame" -> Verdict(id, c.what, c.before = c.after)
     [] c.ev = "boot_export" ->
          LET x == Xs(c.obs)  exp == BootOf(c.obs.value, x, c.table) IN
